@@ -181,10 +181,15 @@ func genFunctions(emit func(Case)) {
 			for _, t := range sig {
 				a := argOf[t]
 				if t == "ID" {
-					for pre, list := range idArgs {
-						if strings.HasPrefix(f.Name, pre) && ids < len(list) {
-							a = list[ids]
+					// longest matching prefix (map iteration order must not matter)
+					best := ""
+					for pre := range idArgs {
+						if strings.HasPrefix(f.Name, pre) && len(pre) > len(best) {
+							best = pre
 						}
+					}
+					if list := idArgs[best]; best != "" && ids < len(list) {
+						a = list[ids]
 					}
 					ids++
 				}
